@@ -112,11 +112,22 @@ func (a *Analyzer) FileNameTaint() *TaintReport {
 	tainted := map[ssa.Value]bool{}
 	taintedFields := map[string]bool{} // "pkg.Type.field"
 	var work []ssa.Value
+	// cut: the tainted path may have lost characters at its END (TrimSuffix, a slice with an upper bound, Replace, Split ...). The base
+	// name of such a value is not a function of the file's own name any more: when the cut consumes the whole last element
+	// (a file called ".json" with the resolve extension ".json") filepath.Base returns the name of the DIRECTORY.
+	cut := map[ssa.Value]bool{}
+	curCut := false
 	add := func(v ssa.Value) {
-		if v == nil || tainted[v] || !stringish(v.Type()) {
+		if v == nil || !stringish(v.Type()) {
+			return
+		}
+		if tainted[v] && (!curCut || cut[v]) {
 			return
 		}
 		tainted[v] = true
+		if curCut {
+			cut[v] = true
+		}
 		work = append(work, v)
 	}
 	fieldKey := func(fa *ssa.FieldAddr) string {
@@ -172,6 +183,10 @@ func (a *Analyzer) FileNameTaint() *TaintReport {
 		v := work[len(work)-1]
 		work = work[:len(work)-1]
 		for _, r := range refs(v) {
+			curCut = cut[v]
+			if sl, ok := r.(*ssa.Slice); ok && sl.High != nil {
+				curCut = true
+			}
 			switch x := r.(type) {
 			case *ssa.Phi, *ssa.MakeInterface, *ssa.ChangeInterface, *ssa.ChangeType, *ssa.Convert, *ssa.Slice, *ssa.Extract, *ssa.TypeAssert:
 				add(x.(ssa.Value))
@@ -234,6 +249,10 @@ func (a *Analyzer) FileNameTaint() *TaintReport {
 					gname = o.String()
 				}
 				if gname == "path/filepath.Base" {
+					if cut[v] {
+						sink(r, "filepath.Base of a path that was shortened at its end first (when the cut removes the whole last element, Base returns the directory's name)")
+						continue
+					}
 					rep.Sanitise++
 					continue
 				}
@@ -256,6 +275,11 @@ func (a *Analyzer) FileNameTaint() *TaintReport {
 				}
 				// library call: the result carries the taint if it is string-like (but not errors)
 				if cv, ok := r.(*ssa.Call); ok {
+					switch gname {
+					case "strings.TrimSuffix", "strings.TrimRight", "strings.TrimRightFunc", "strings.Trim", "strings.TrimFunc", "strings.CutSuffix",
+						"strings.Replace", "strings.ReplaceAll", "strings.Split", "strings.SplitN", "strings.Cut", "strings.Fields":
+						curCut = true
+					}
 					add(cv)
 				}
 			}
